@@ -37,6 +37,16 @@ struct Spec {
     /// `Type::method` -> calls that become extra parameters of the requesting function
     #[serde(default)]
     opaque_calls: Vec<String>,
+    /// enum -> the variants that are kept (the generated functions are the restrictions of the Rust
+    /// functions to values built from these variants)
+    #[serde(default)]
+    enum_subset: BTreeMap<String, Vec<String>>,
+    /// cargo features that are on (`cfg(feature = "x")` is false for every other x)
+    #[serde(default)]
+    cfg_features: Vec<String>,
+    /// the error type of the crate's `Result<T>` alias
+    #[serde(default)]
+    result_error: Option<String>,
     requests: Vec<Request>,
 }
 
@@ -65,6 +75,8 @@ struct TErr {
     file: String,
     line: usize,
     msg: String,
+    /// the pattern names a variant left out by `enum_subset` (the alternative / arm is dropped)
+    excluded: bool,
 }
 type R<T> = Result<T, TErr>;
 
@@ -116,6 +128,10 @@ fn cfg_eval(m: &Meta) -> Option<bool> {
         Meta::NameValue(nv) => {
             let name = nv.path.get_ident()?.to_string();
             let val = nv.value.to_token_stream().to_string();
+            if name == "feature" {
+                let on = FEATURES.get().map(|f| f.iter().any(|x| format!("\"{x}\"") == val)).unwrap_or(false);
+                return Some(on);
+            }
             match (name.as_str(), val.as_str()) {
                 ("target_family", "\"unix\"") => Some(true),
                 ("target_family", "\"windows\"") => Some(false),
@@ -124,6 +140,27 @@ fn cfg_eval(m: &Meta) -> Option<bool> {
             }
         }
     }
+}
+
+static FEATURES: std::sync::OnceLock<Vec<String>> = std::sync::OnceLock::new();
+
+/// Some(true): configured in; Some(false): configured out; None: a predicate is not decided
+fn cfg_state(attrs: &[Attribute]) -> Option<bool> {
+    let mut r = Some(true);
+    for a in attrs {
+        if a.path().is_ident("cfg") {
+            let v = match &a.meta {
+                Meta::List(l) => l.parse_args::<Meta>().ok().and_then(|m| cfg_eval(&m)),
+                _ => None,
+            };
+            match v {
+                Some(false) => return Some(false),
+                None => r = None,
+                Some(true) => {}
+            }
+        }
+    }
+    r
 }
 
 /// true: keep; false: configured out (an unknown predicate configures the item out of the index and
@@ -381,6 +418,8 @@ struct VarInfo {
 struct EnumInfo {
     variants: Vec<VarInfo>,
     derives: BTreeSet<String>,
+    /// variants of the Rust enum left out by `enum_subset`
+    excluded: Vec<String>,
 }
 #[derive(Clone, Debug)]
 struct RecInfo {
@@ -401,6 +440,9 @@ struct FnInfo {
     mutating: bool,
     params: Vec<Ty>,
     ret: Ty,
+    /// the function has inputs that are not Rust parameters (opaque calls) or parameters that are
+    /// not translated: it cannot be called from another translated function
+    partial: bool,
 }
 
 #[derive(Clone, Debug)]
